@@ -382,6 +382,7 @@ func runC11(c *Ctx) {
 		}
 		// ids beyond the per-block limit go back to the removal queue (not to another queue)
 		checkQueueBundles(c, "pk.Keeper.BeginBlockRemoveConsumers")
+		c.RunsEveryBlock("provider.AppModule.BeginBlock", "pk.Keeper.BeginBlockRemoveConsumers", "removal-driver-runs-every-block")
 		c.KeyShapeIs("pt.RemovalTimeToConsumerIdsKey", "Const(RemovalTimeToConsumerIdsKeyName)·Time(param:removalTime)", "the removal queue is scanned in time order and the scan stops at the first future entry")
 	}
 	if f := c.Fn("pk.Keeper.DeleteConsumerChain"); f != nil {
